@@ -2,6 +2,7 @@ package rules
 
 import (
 	"fmt"
+	"go/ast"
 	"go/token"
 	"go/types"
 	"sort"
@@ -138,7 +139,7 @@ func (e *Env) tokenSentinels(v *spec.Version, ms []*decodeOneModel) {
 		}
 		who := fname(m.Fn)
 		for _, r := range m.Rejects {
-			cons := fmt.Sprintf("%s %s path returning at %s", who, r.Kind, e.P.Pos(r.Leaf.Pos))
+			cons := fmt.Sprintf("%s %s %s path on %s", who, r.Kind, r.Arm, r.Cond)
 			if r.Kind == "propagate" {
 				c.Ok("sentinel-pairing", cons, e.P.Pos(r.Leaf.Pos), "embedded level's error passed on")
 				continue
@@ -527,6 +528,16 @@ func (e *Env) constructorFresh(l *facts.Level, rule string) {
 				okNames = true
 			}
 		}
+		// make(map[K]V) / make(map[K]V, n) is the same fresh empty map
+		if call, ok := ast.Unparen(x).(*ast.CallExpr); ok && !okNames {
+			if id, ok := ast.Unparen(call.Fun).(*ast.Ident); ok {
+				if bi, ok := info.Uses[id].(*types.Builtin); ok && bi.Name() == "make" && len(call.Args) >= 1 {
+					if _, isMap := info.TypeOf(call.Args[0]).Underlying().(*types.Map); isMap {
+						okNames = true
+					}
+				}
+			}
+		}
 	}
 	c.Check(okNames, rule, who+" names", e.P.Pos(ctor.Pos()), "a fresh empty map per object", "names is not initialised with a fresh empty map literal (nil map write would panic / shared map would leak state between objects)")
 	if l.Lower != nil {
@@ -761,6 +772,13 @@ func (e *Env) nilReceiverRules(v *spec.Version, ls []*facts.Level) {
 					if e.isEmbeddedLoad(arg, embedded) || e.nonNilAt(nil, arg, b, 0) {
 						continue
 					}
+					// an unexported level method handing on its own receiver: passing it counted as a dereference
+					// of the caller above, so the obligation lies with the caller's own call sites
+					if co, _ := caller.Object().(*types.Func); co != nil && !co.Exported() && caller.Signature.Recv() != nil && len(caller.Params) > 0 && e.derivesFrom(arg, caller.Params[0]) {
+						if cpt, ok := caller.Signature.Recv().Type().(*types.Pointer); ok && levelOf[cpt.Elem()] != nil {
+							continue
+						}
+					}
 					okSites = false
 					c.Fail("nil-receiver", cons+" called from "+caller.String(), e.P.Pos(call.Pos()), "unexported method dereferences its receiver and is called here with a receiver that is not provably non-nil")
 				}
@@ -876,6 +894,16 @@ func (e *Env) boundsRules() {
 				okLoop := false
 				if ia, isIA := in.(*ssa.IndexAddr); isIA {
 					if lp, _ := analyseIndexLoop(ia); lp != nil && lp.Header.Dominates(b) && b != lp.Header {
+						okLoop = true
+					}
+				}
+				if !okLoop && !isSlice {
+					// a counting loop over an array (range over an array literal): the bound is the array's length
+					var at types.Type = x.Type()
+					if p, ok := at.Underlying().(*types.Pointer); ok {
+						at = p.Elem()
+					}
+					if arr, ok := at.Underlying().(*types.Array); ok && constBoundedIndex(index, arr.Len(), b) {
 						okLoop = true
 					}
 				}
@@ -1070,6 +1098,14 @@ func (e *Env) writeOwnership(v *spec.Version, ls []*facts.Level) {
 				okWriter := obj != nil && (obj == l.DecodeOne || obj == e.P.LookupFunc(v.Pkg, "New"+l.Spec.Name))
 				if fv == l.VerField && obj != nil && obj.Name() == "Decode" {
 					okWriter = true // checked by version-recorded
+				}
+				if !okWriter && obj != nil {
+					// a helper that runs only on behalf of this level's decodeOne/constructor writes in their name
+					ctor := e.P.LookupFunc(v.Pkg, "New"+l.Spec.Name)
+					okWriter = e.privateTo(fn, func(c *ssa.Function) bool {
+						co, _ := c.Object().(*types.Func)
+						return co != nil && (co == l.DecodeOne || (ctor != nil && co == ctor))
+					})
 				}
 				if !okWriter {
 					c.Fail("write-ownership", fmt.Sprintf("%s writes %s.%s", fn.String(), l.Spec.Name, fv.Name()), e.P.Pos(in.Pos()), "a field of level "+l.Spec.Name+" is written outside that level's decodeOne/constructor: views of the same vector can disagree")
